@@ -133,3 +133,32 @@ Proof.
     cbn [lsn_key fst snd] in Hc. apply andb_true_iff in Hc. destruct Hc as [Hc H5]. apply andb_true_iff in Hc. destruct Hc as [H3 H4].
     exists o0. split; [apply in_rev; exact Ho0|]. split; [apply Z.eqb_eq; exact H3|]. split; [apply Z.eqb_eq; exact H4|apply Z.ltb_lt; exact H5].
 Qed.
+
+(* ---- the served transmit stamp is not earlier than the software transmit time of the
+   exchange it belongs to, provided the environment reports kernel stamps that are not
+   earlier than the software transmit time of their exchange (monotone time: the listener
+   reads its clock, fills the reply, and only then does the kernel transmit it) ---- *)
+Definition reports_after_software (log : list event) : Prop :=
+  forall cid rx tx q0 r0, In (EvTx cid rx tx) log -> In (EvReply cid q0 r0) log -> r_rx r0 = rx -> r_ref r0 <= tx.
+
+Section EraTx.
+Variable k : Z.
+Variable c : config.
+Hypothesis Hicap : 0 < icap c.
+
+Theorem served_tx_after_software_tx s log cid q rxt now victim out :
+  Inv c s -> Prov log s -> reports_after_software log ->
+  in_era k rxt -> in_era k (rxt + icap c + 1) -> in_era k now ->
+  handle c s cid q rxt now victim = Some out ->
+  r_inter (o_reply out) = true ->
+  exists q0 r0, In (EvReply cid q0 r0) log /\ r_rx r0 = q_org q /\ r_ref r0 <= r_tx (o_reply out).
+Proof.
+  intros HInv HProv Hrep E1 E2 E3 Hh Hint.
+  destruct (reply_theorem k c Hicap s log cid q rxt now victim out HInv HProv E1 E2 E3 Hh)
+    as [_ [_ [_ [_ [_ [Hshape _]]]]]].
+  destruct Hshape as [[Ri _]|[_ [_ [_ [q0 [r0 [Hin [Hrx [_ Hsrc]]]]]]]]]; [congruence|].
+  exists q0, r0. split; [exact Hin|]. split; [exact Hrx|].
+  destruct Hsrc as [->|Htx]; [apply Z.le_refl|].
+  exact (Hrep cid (q_org q) (r_tx (o_reply out)) q0 r0 Htx Hin Hrx).
+Qed.
+End EraTx.
